@@ -29,9 +29,9 @@ G_HEADS = {"End", "Empty", "Any", "Just", "OneOf", "NoneOf", "Select", "Custom",
            "DelimitedBy", "PaddedBy", "Group", "Or", "Choice", "ChoiceVec", "OrNot", "Not", "AndIs", "Rewind",
            "RepUnit", "Collect", "CollectExactly", "Foldl", "Foldr", "FoldlWith", "FoldrWith", "RecoverVia",
            "RecoverSkipUntil", "RecoverSkipRetry", "Labelled", "MapErr", "WithCtx", "IgnoreWithCtx", "ThenWithCtx",
-           "MapCtx", "JustCfg", "Memo", "Rec", "Var", "NestedIn", "Boxed"}
+           "MapCtx", "JustCfg", "Memo", "Rec", "Var", "NestedIn", "Boxed", "GroupArr", "Pratt", "RecDecl"}
 IT_HEADS = {"IRep", "ISep", "IEnum", "IMap", "IMapWith", "IOrNot", "IRepCfg"}
-LIST_G = {"Group", "Choice", "ChoiceVec"}
+LIST_G = {"Group", "GroupArr", "Choice", "ChoiceVec"}
 
 def is_g(x):
     return (isinstance(x, str) and x in G_HEADS) or (isinstance(x, list) and len(x) > 0 and isinstance(x[0], str) and x[0] in G_HEADS)
